@@ -5,7 +5,7 @@ MaxOps = 5
 MaxAtts = {6}
 Caps = {3, 5}
 CodeSets = {{14}}
-BufLimits = {20, 1000}
+BufLimits = {20}
 ThrMaxs = {0, 4}
 Boffs = {1}
 PBSet = {"none", "p7", "neg"}
